@@ -1,8 +1,50 @@
-"""C09: decided on spec/Shm.tla (TLC) + replay of TLC behaviours into the real cascade.shm.dataset.Manager."""
+"""C09: decided on spec/Shm.tla (TLC) + replay of TLC behaviours into the real cascade.shm.dataset.Manager; the eviction
+lottery is in addition judged as a function over candidates with EQUAL time stamps (spec/Lottery.tla, pattern P3)."""
+import json
+
+from .. import p3
+from ..common import guarded, CaseTimeout
 from ..shm_engine import report
 
 LEVEL = "model_checking"
 
 
+def lottery(ctx):
+    from cascade.shm import algorithms
+
+    consts = {"MaxN": "3", "MaxStamp": "2" if ctx.quick else "3", "MaxSize": "2"}
+    cases_file, cases = p3.generate(ctx, "Lottery", consts, env={"PASS": "generate"})
+
+    def one(c):
+        ents = [algorithms.Entity(e["key"], e["created"], e["first"], e["last"], e["size"]) for e in c["ents"]]
+        try:
+            w = guarded(lambda: algorithms.lottery(iter(ents), c["amount"]), 5.0)
+            return {"raised": False, "winners": [str(x) for x in w], "what": ""}
+        except (Exception, CaseTimeout) as e:
+            return {"raised": True, "winners": [], "what": repr(e)[:120]}
+
+    cases, results = p3.execute(ctx, cases, cases_file, one)
+    rf = ctx.scratch / "lottery_results.json"
+    rf.write_text(json.dumps(results))
+    env = {"PASS": "judge", "JUDGE_CASES": str(cases_file)}
+    bad = p3.judge_chunked(ctx, "Lottery", consts, cases, results, chunk=4000, env={"PASS": "judge", "JUDGE_CASES": "@cases"}) \
+        if len(cases) > 6000 else p3.judge(ctx, "Lottery", consts, cases_file, rf, env=env)
+    info: dict[str, int] = {}
+    for i, names in sorted(bad.items()):
+        hard = sorted(n for n in names if not n.startswith("I_"))
+        for n in names:
+            if n.startswith("I_"):
+                info[n] = info.get(n, 0) + 1
+        if hard:
+            ctx.violate("lottery:" + "+".join(hard), f"cascade.shm.algorithms.lottery violates {hard} on {cases[i-1]}: {results[i-1]}",
+                        {"case": cases[i - 1], "result": results[i - 1]}, clause="+".join(hard))
+    ctx.coverage["lottery_cases"] = len(cases)
+    ctx.coverage["lottery_cases_with_equal_stamps"] = sum(
+        1 for c in cases if len({(e["created"], e["first"], e["last"]) for e in c["ents"]}) < len(c["ents"]))
+    if info:
+        ctx.coverage["lottery_policy_differences_informational"] = info
+
+
 def run(ctx):
     report(ctx, "C09")
+    lottery(ctx)
